@@ -14,9 +14,10 @@ REGISTRATION = {
             "byte automaton), flushPending and the per-token loop of processBatch: every streamed chunk is valid "
             "UTF-8; for generated text that is (a prefix of) valid UTF-8 the output is a prefix of it cut on "
             "character boundaries; with valid non-empty stops the run ends at the first token that completes a stop, "
-            "the output is the text before the found stop; the finish-reason map. The multi-stop 'contains no stop' "
-            "clause is false on the pinned code (FindStop takes the first listed stop, finding F7) and is proved "
-            "under the guard 'first listed = earliest'. The model is compared exactly with the real functions of "
+            "the output is the text before the found stop; the finish-reason map and what each cause means in terms of "
+            "the script. The multi-stop 'contains no stop' clause is false on the pinned code (FindStop takes the first "
+            "listed stop, finding F7, Lean witness) and is proved under the guard 'first listed = earliest'; for the "
+            "repaired FindStop (proposed_fixes/C14-F7.patch, model flag pinned=false) it is proved in full. The model is compared exactly with the real functions of "
             "runner/common, with the real ollamarunner.Server.processBatch/removeSequence/flushPending (one real "
             "processBatch call per token, scripted model + greedy sampler behind the Server) and with the real "
             "llamarunner.flushPending; the llamarunner loop (needs llama.cpp and a model file) is tied by a go/ast "
@@ -124,7 +125,7 @@ def run(ctx):
         env_replay["VERIF_REPLAY"] = ctx.replay_line_file()
 
     # (1) pure functions of runner/common + the UTF-8 decoder
-    env = {"VERIF_N": ctx.scale(3000, 60000), "VERIF_EXH": ctx.scale(4, 5), "VERIF_C14_PINNED": PINNED_FINDSTOP}
+    env = {"VERIF_N": ctx.scale(3000, 200000), "VERIF_EXH": ctx.scale(4, 5), "VERIF_C14_PINNED": PINNED_FINDSTOP}
     env.update(env_replay)
     rc, out, outdir = ctx.go_test("./runner/common/", OV_COMMON, "^TestVerifC14$", env=env)
     if rc != 0:
@@ -134,7 +135,7 @@ def run(ctx):
     ctx.classify(ctx.l2(outdir))
 
     # (2) the real per-token loop of ollamarunner.Server.processBatch
-    env = {"VERIF_N": ctx.scale(4000, 150000), "VERIF_EXH": ctx.scale(5, 6), "VERIF_C14_PINNED": PINNED_FINDSTOP}
+    env = {"VERIF_N": ctx.scale(4000, 600000), "VERIF_EXH": ctx.scale(5, 8), "VERIF_C14_PINNED": PINNED_FINDSTOP}
     env.update(env_replay)
     rc, out, outdir = ctx.go_test("./runner/ollamarunner/", OV_OLLAMA, "^TestVerifC14Loop$", env=env, timeout=2400)
     if rc != 0:
@@ -146,7 +147,7 @@ def run(ctx):
     # (3) llamarunner's own copy of flushPending
     if not ctx.replay:
         rc, out, outdir = ctx.go_test("./runner/llamarunner/", OV_LLAMA, "^TestVerifC14LlamaFlush$",
-                                      env={"VERIF_N": ctx.scale(2000, 40000)}, timeout=2400)
+                                      env={"VERIF_N": ctx.scale(2000, 100000)}, timeout=2400)
         if rc != 0:
             ctx.violation("driver-failed", "", out[-1500:], no_input=True)
         ctx.read_stats(outdir)
@@ -166,8 +167,8 @@ def run(ctx):
         rule="pure functions: exhaustive over all byte strings of length <= 5 (thorough 6) on a 9-symbol alphabet "
              "(ASCII, stop characters, 2/3/4-byte leads, continuation bytes) and <= 3 (4) on the 24 boundary bytes of the "
              "well-formed UTF-8 table, x 10 stop sets, all splits into pieces x 9 stops, + seeded random longer texts; "
-             "loop: the F7/F20 corpus, every split of 8 short texts x 11 stop sets x 4 limits x EOS/no EOS, + seeded random "
-             "scripts (multi-byte characters and stops split across tokens, glued tokens, invalid bytes, empty pieces, "
+             "loop: the F7/F20 corpus, every split of up to 8 short texts x 11 stop sets x 4 limits x EOS/no EOS, + seeded "
+             "random scripts (4 000 quick / 600 000 thorough) (multi-byte characters and stops split across tokens, glued tokens, invalid bytes, empty pieces, "
              "EOS anywhere, limits -1..n+2); distinct = distinct oracle command lines",
         explanation="Lean theorems about the model of stop.go/flushPending/processBatch's output logic; the model is tied "
                     "to the code by exact comparison with the real functions and the real processBatch loop (L1), by the "
